@@ -18,7 +18,7 @@ def match_list_ok(L, V):
     return (len(L) == len(V)
             and forall(Int, lambda i: implies(0 <= i and i < len(L),
                                               L[i][0] == V[i][0] and L[i][1] == V[i][1] and contents(L[i][2]) == V[i][2]
-                                              and (is_src(L[i][2]) or is_held(L[i][2])))))
+                                              and (is_src(L[i][2]) or (is_held(L[i][2]) and not is_owned_below(L[i][2]))))))
 
 
 @contract('rbql_engine.Joiner.get_rhs', name='IF.joiner.get_rhs', trusted='interface contract of joiners over the abstract pairing join_pairs_for(kind, B-buckets, null width, key) (proved for Inner/Left/StrictLeft joiners)')
